@@ -23,6 +23,7 @@
 #include <igris/time/timer_manager.h>
 #include <new>
 #include <string>
+#include <type_traits>
 #include <vector>
 
 using std::string;
@@ -59,8 +60,11 @@ struct RefTimer
     int64_t deadline() const { return start + interval; }
 };
 
-struct TimerModel;
-static TimerModel *g_model = nullptr;
+struct CallbackSink
+{
+    virtual void on_callback(int id) = 0;
+};
+static CallbackSink *g_model = nullptr;
 static void timer_callback(int id);
 
 struct Runaway
@@ -82,10 +86,13 @@ enum
     K_DELETE,
     K_RECREATE
 };
-static const vector<Op> &ops_for(int N, int NS)
+// unsigned time types: the difference now - start wraps, so a start ahead of now is "due" on the unchanged
+// code; the alphabet for those instantiations keeps every start at or before now
+static bool script_ok(int s, bool uns) { return !uns || (s != S_REPLAN_SELF && s != S_PLAN_O1_FUT); }
+static const vector<Op> &ops_for(int N, int NS, bool uns = false)
 {
-    static vector<Op> tab[MAXN + 1][S_MAX + 1];
-    vector<Op> &ops = tab[N][NS];
+    static vector<Op> tab[2][MAXN + 1][S_MAX + 1];
+    vector<Op> &ops = tab[uns][N][NS];
     if (ops.empty())
     {
         static const int offs[] = {-2, 0, 1};
@@ -94,7 +101,8 @@ static const vector<Op> &ops_for(int N, int NS)
         for (int t = 0; t < N; t++)
             for (int o : offs)
                 for (int i = 1; i <= 3; i++)
-                    ops.push_back({K_PLAN3, t, o, i});
+                    if (!(uns && o > 0))
+                        ops.push_back({K_PLAN3, t, o, i});
         for (int t = 0; t < N; t++)
             ops.push_back({K_PLAN1, t, 0, 0});
         for (int t = 0; t < N; t++)
@@ -103,7 +111,8 @@ static const vector<Op> &ops_for(int N, int NS)
             ops.push_back({K_DELETE, t, 0, 0});
         for (int t = 0; t < N; t++)
             for (int s = 0; s < NS; s++)
-                ops.push_back({K_RECREATE, t, s, 0});
+                if (script_ok(s, uns))
+                    ops.push_back({K_RECREATE, t, s, 0});
     }
     return ops;
 }
@@ -129,12 +138,16 @@ struct Fifo
     }
 };
 
-struct TimerModel : mc::Model
+template <class Spec> struct TimerModelT : mc::Model, CallbackSink
 {
+    typedef typename Spec::time_t TT;
+    typedef igris::timer_manager_basic<Spec> Mgr;
+    typedef igris::timer_basic<Spec, int> Timer;
+    static constexpr bool UNS = std::is_unsigned<TT>::value;
     int N, NS;
     int64_t horizon; // exec is not issued beyond base + this (-1: unbounded); makes the universe finite
     int64_t base = 0; // the clock starts here (2^31-3, 2^32-3, INT64_MAX-200: operands around the width boundaries)
-    igris::timer_manager *mgr;
+    Mgr *mgr;
     Timer *tim[MAXN] = {nullptr, nullptr, nullptr, nullptr};
     int64_t now = 0;
     // reference
@@ -173,19 +186,19 @@ struct TimerModel : mc::Model
         ref[t].script = script;
     }
 
-    explicit TimerModel(int n, int64_t horizon_ = -1, int ns = 0, int64_t base_ = 0)
-        : N(n), NS(ns ? ns : (mc::thorough() ? (int)S_MAX : (int)S_UNPLAN_O2)), horizon(horizon_), base(base_), ops(ops_for(n, NS))
+    explicit TimerModelT(int n, int64_t horizon_ = -1, int ns = 0, int64_t base_ = 0)
+        : N(n), NS(ns ? ns : (mc::thorough() ? (int)S_MAX : (int)S_UNPLAN_O2)), horizon(horizon_), base(base_), ops(ops_for(n, NS, UNS))
     {
         now = base;
 #ifndef C16_ASAN
         memset(arena, 0xDD, sizeof arena);
 #endif
-        mgr = new igris::timer_manager;
+        mgr = new Mgr;
         for (int t = 0; t < N; t++)
             create(t, S_NOP);
         g_model = this;
     }
-    ~TimerModel()
+    ~TimerModelT()
     {
         // a manager list that reaches a destroyed timer was reported by check(); tearing such a universe
         // down would only crash the worker (and cost a sanitizer report per transition): leak it instead
@@ -351,7 +364,7 @@ struct TimerModel : mc::Model
     }
 
     // ---------------- the real callback
-    void on_callback(int id)
+    void on_callback(int id) override
     {
         log.push_back(id);
         if ((int)log.size() > FUEL + 10)
@@ -601,8 +614,8 @@ struct TimerModel : mc::Model
             mc::violation(mc::fmt("C16.%s.empty", sigk), "empty()=%d with %d pending timers in the reference", mgr->empty(), npend);
         else if (npend)
         {
-            int64_t mi = mgr->minimal_interval(now);
-            if (mi != mind - now)
+            int64_t mi = (int64_t)mgr->minimal_interval(now);
+            if ((TT)mi != (TT)(mind - now)) // an unsigned difference type wraps for an overdue head: compare in the time type
                 mc::violation(mc::fmt("C16.%s.minimal_interval", sigk), "minimal_interval(%lld)=%lld, reference next deadline %lld",
                               (long long)now, (long long)mi, (long long)mind);
         }
@@ -667,6 +680,7 @@ static void timer_callback(int id)
     if (g_model)
         g_model->on_callback(id);
 }
+typedef TimerModelT<igris::timer_spec<int64_t>> TimerModel;
 
 // ================================================================ two managers sharing the timers (bfs)
 // A timer belongs to the manager that planned it LAST: it fires only from that manager's exec, and both
@@ -710,7 +724,7 @@ struct TwoManagers : mc::Model
             for (int t = 0; t < NT; t++)
                 ops.push_back({T_UNPLAN, 0, t, 0, 0});
             for (int t = 0; t < NT; t++)
-                for (int sc = 0; sc < 2; sc++)
+                for (int sc = 0; sc < 3; sc++)
                     ops.push_back({T_SCRIPT, 0, t, sc, 0});
         }
         return ops;
@@ -719,7 +733,7 @@ struct TwoManagers : mc::Model
     {
         int owner = -1; // manager that planned it last, -1: not planned
         int64_t start = 0, interval = 0;
-        int script = 0; // 0 nothing, 1 unplan self
+        int script = 0; // 0 nothing, 1 unplan self, 2 run the OTHER manager's exec(now) from inside this callback
         int64_t deadline() const { return start + interval; }
     };
     igris::timer_manager *mgr[NM];
@@ -728,6 +742,8 @@ struct TwoManagers : mc::Model
     Fifo fifo[NM]; // reference order per manager (deadline, then order of planning)
     int64_t now = 0;
     int cur = -1; // manager whose exec is running
+    int depth = 0; // nesting of exec calls (a callback of A may run B.exec; never the same manager again)
+    bool nested_ran = false;
     int fired = 0;
     bool suspect = false;
     const vector<TOp> &ops;
@@ -769,7 +785,7 @@ struct TwoManagers : mc::Model
         case T_EXEC:
             return mc::fmt("%c.exec(now+=%d)", M, p.a);
         default:
-            return mc::fmt("t%d script=%s", p.t, p.a ? "unplan_self" : "nop");
+            return mc::fmt("t%d script=%s", p.t, p.a == 0 ? "nop" : (p.a == 1 ? "unplan_self" : "exec_other_manager"));
         }
     }
     void ref_unplan(int t)
@@ -818,6 +834,22 @@ struct TwoManagers : mc::Model
                                   id, (long long)r.deadline(), M, j, (long long)ref[j].deadline());
         }
         // script, then the re-arm rule (on the manager that is executing)
+        if (r.script == 2 && depth == 1 && cur >= 0)
+        {
+            // two managers alive at once: the other one's exec runs to completion inside this callback
+            int outer = cur, other = 1 - cur;
+            cur = other;
+            depth++;
+            nested_ran = true;
+            mgr[other]->exec(now);
+            depth--;
+            cur = outer;
+            for (int t = 0; t < NT; t++)
+                if (ref[t].owner == other && ref[t].deadline() <= now)
+                    mc::violation("C16.two_managers.nested_exec.due_timer_not_fired",
+                                  "%c.exec(now=%lld) called from a callback of %c returned with t%d still pending on %c, deadline %lld+%lld", 'A' + other,
+                                  (long long)now, 'A' + outer, t, 'A' + other, (long long)ref[t].start, (long long)ref[t].interval);
+        }
         if (r.script == 1)
         {
             ref_unplan(id);
@@ -875,6 +907,8 @@ struct TwoManagers : mc::Model
         case T_EXEC:
             now += p.a;
             cur = p.m;
+            depth = 1;
+            nested_ran = false;
             fired = 0;
             mc::crash_context("C16.two_managers.exec.crash");
             try
@@ -884,11 +918,18 @@ struct TwoManagers : mc::Model
             catch (Runaway &)
             {
                 cur = -1;
+                depth = 0;
                 g_lock_depth = 0;
                 suspect = true;
                 return true;
             }
             cur = -1;
+            depth = 0;
+            if (nested_ran)
+            {
+                mc::nontrivial();
+                mc::count("exec_nested_in_callback_of_other_manager");
+            }
             for (int t = 0; t < NT; t++)
                 if (ref[t].owner == p.m && ref[t].deadline() <= now)
                     mc::violation("C16.two_managers.exec.due_timer_not_fired", "after %c.exec(now=%lld) t%d, last planned on %c, is still pending with deadline %lld+%lld",
@@ -1387,7 +1428,13 @@ MC_INIT
 #ifdef C16_ASAN
     o.depth_quick = 4;
     o.depth_thorough = 4;
+    // this executable is the variant build: clang++ -O2 -DNDEBUG under ASan (the other one is g++ -O2 with
+    // assertions); a representative selection of the sub-checks is repeated here
     mc::add_bfs("timer_manager_3_asan", [] { return std::unique_ptr<mc::Model>(new TimerModel(3)); }, o);
+    mc::add_bfs("two_managers_2_timers_asan", [] { return std::unique_ptr<mc::Model>(new TwoManagers); }, o);
+    mc::add_bfs("timer_manager_3_uint32_asan", [] { return std::unique_ptr<mc::Model>(new TimerModelT<igris::timer_spec<uint32_t>>(3, -1, 0, 1000)); }, o);
+    mc::add_bfs("stimer_histories_fixpoint_asan", [] { return std::unique_ptr<mc::Model>(new StimerModel); });
+    mc::add_check("unsigned_time_across_wrap_asan", wrap_checks);
 #else
     mc::add_check("stimer_due_rule", stimer_checks);
     mc::add_bfs("stimer_histories_fixpoint", [] { return std::unique_ptr<mc::Model>(new StimerModel); });
@@ -1414,6 +1461,20 @@ MC_INIT
         mc::add_bfs("two_managers_2_timers", [] { return std::unique_ptr<mc::Model>(new TwoManagers); }, t2);
     }
     mc::add_check("unsigned_time_across_wrap", wrap_checks);
+    {
+        // every other TimeSpec a user can instantiate: unsigned 32/64-bit (clock at 1000, far from the wrap point,
+        // every start at or before now) and signed 32-bit; several timers, so queue ORDER is exercised there too
+        mc::BfsOpts b;
+        b.depth_quick = 4;
+        b.depth_thorough = 5;
+        b.max_states = 40000000;
+        mc::BfsOpts u = b;
+        u.depth_quick = 5;
+        u.depth_thorough = 6;
+        mc::add_bfs("timer_manager_3_uint32", [] { return std::unique_ptr<mc::Model>(new TimerModelT<igris::timer_spec<uint32_t>>(3, -1, 0, 1000)); }, u);
+        mc::add_bfs("timer_manager_3_uint64", [] { return std::unique_ptr<mc::Model>(new TimerModelT<igris::timer_spec<uint64_t>>(3, -1, 0, 1000)); }, u);
+        mc::add_bfs("timer_manager_3_int32", [] { return std::unique_ptr<mc::Model>(new TimerModelT<igris::timer_spec<int32_t>>(3)); }, b);
+    }
     {
         // timer_manager (int64_t) with the clock starting just below 2^31, 2^32 and near INT64_MAX: every
         // operation of the alphabet sees operands on both sides of the boundary
